@@ -278,7 +278,7 @@ func (e *Explorer) Run() {
 	e.Res.States[root] = 0
 	e.Res.Extra["root_digest"] = root
 	if e.Invariant != nil {
-		e.Invariant(e.W, nil, e.Res)
+		e.invariantGuarded(nil)
 		e.Res.Evaluations++
 	}
 	if Replaying() {
@@ -345,7 +345,7 @@ func (e *Explorer) visit(depth int, path []string, cur string) {
 		}
 		if ok || e.ExpandFailed {
 			if e.Invariant != nil {
-				e.Invariant(e.W, p, e.Res)
+				e.invariantGuarded(p)
 				e.Res.Evaluations++
 			}
 			if e.Res.ViolCount != violBefore && !e.ExpandViolating {
@@ -368,6 +368,31 @@ func (e *Explorer) visit(depth int, path []string, cur string) {
 		}
 		restore()
 	}
+}
+
+// invariantGuarded evaluates the invariant; a panic of the code under test inside it (an accessor
+// of a state so inconsistent that it cannot be read) is a violation of its own, not a harness error.
+func (e *Explorer) invariantGuarded(p []string) {
+	GuardInvariant(e.Res, p, func() { e.Invariant(e.W, p, e.Res) })
+}
+
+// GuardInvariant runs inv and turns a panic inside it into a violation (also used by replayers).
+func GuardInvariant(res *Result, p []string, inv func()) {
+	defer func() {
+		if r := recover(); r != nil {
+			last := "init"
+			if len(p) > 0 {
+				last = p[len(p)-1]
+				if i := strings.IndexByte(last, '('); i > 0 {
+					last = last[:i]
+				}
+			}
+			res.AddViolation(Violation{Signature: fmt.Sprintf("%s|invariant-panic|after=%s|%s", res.Property, last, firstLine(fmt.Sprint(r))),
+				What: "the state reached cannot be read: an accessor of the code under test panicked while the invariant was evaluated", Path: p,
+				Detail: map[string]any{"panic": firstLine(fmt.Sprint(r))}})
+		}
+	}()
+	inv()
 }
 
 func (e *Explorer) applyGuarded(op Op, p []string) (outcome string) {
